@@ -5,7 +5,8 @@ evaluation of a contract (exact rational arithmetic in the solver) is not distur
 import importlib
 import random
 
-SCALARS = [-2, -1, -0.5, 0, 0.25, 0.5, 1, 2, 3, 4, -3, 1.5]
+TINY = 2.0 ** -45        # a tiny dyadic (2.8e-14): exact in float arithmetic, below any plausible round-off threshold
+SCALARS = [-2, -1, -0.5, 0, 0.25, 0.5, 1, 2, 3, 4, -3, 1.5, TINY, -TINY, 0]
 DIVISORS = [-2, -0.5, 0, 0.25, 1, 2, 4, 0.5, -1]
 
 
